@@ -1,7 +1,7 @@
 from __future__ import annotations
 import zlib
 from ..rfc7516.models import JWEZipModel
-from ..errors import ExceededSizeError
+from ..errors import DecodeError, ExceededSizeError
 
 GZIP_HEAD = bytes([120, 156])
 MAX_SIZE = 250 * 1024
@@ -27,7 +27,10 @@ class DeflateZipModel(JWEZipModel):
         # ask for one octet more than the limit: zlib can consume all of its
         # input and still hold back output, so an empty unconsumed_tail does
         # not prove that the whole stream was delivered
-        value = decompressor.decompress(s, MAX_SIZE + 1)
+        try:
+            value = decompressor.decompress(s, MAX_SIZE + 1)
+        except zlib.error as error:
+            raise DecodeError(f"Invalid compressed data: {error}")
         if len(value) > MAX_SIZE or decompressor.unconsumed_tail:
             raise ExceededSizeError(f"Decompressed string exceeds {MAX_SIZE} bytes")
         return value
